@@ -4,6 +4,11 @@ import json, os, subprocess
 VERIF = os.path.dirname(os.path.dirname(os.path.abspath(__file__)))
 
 CLAIMED = {
+ "C15": dict(
+   text="Machine-checked Coq proof, for every byte string and every offset (on or off character boundaries, past the end), that the checkpoint/binary-search/forward-count converter of the model equals the direct one-pass definition (and that this pass is line = 1 + completed line endings, column = characters since the last one); the model is tied to /repo on every run by a differential correspondence check (SourceWithLineStarts::new + SourcePos::get_positions vs the extracted model, debug and release) and an independent Python implementation of the definition.",
+   note="Trusted: Coq kernel; hand-written model coq/model/SourceMap.v (binary_search_by over strictly increasing offsets modelled as last-mark-with-offset<=key; char_indices modelled as non-continuation bytes) agrees with src/common/sourcemap.rs as far as the sampled correspondence shows; extraction, driver, harness.",
+   technique="Coq proof over Gallina model + extracted-model/implementation differential correspondence",
+   design="DESIGN.md section 6 C15"),
  "C17": dict(
    text="Machine-checked Coq proofs (unbounded: all byte strings, all safe sets, both modes) of ASCII-only output, the (safe | %XX)* grammar, idempotence and escape preservation in keep-escaped mode, and decode round trip otherwise, about a hand-written Gallina model of mdurl::encode; the model is tied to /repo on every run by a differential correspondence check (model extracted to OCaml vs the real function on generated and follow-up inputs, debug and release builds).",
    note="Trusted: Coq kernel; hand-written model (coq/model/Mdurl.v) agrees with src/common/mdurl/encode.rs only as far as the sampled correspondence shows; extraction (ExtrOcamlBasic), OCaml driver, Rust harness; String::from_utf8 on ASCII bytes.",
